@@ -15,9 +15,9 @@ def hook_commits():
 CHECKS = {
  # id: (level, design_ref, technique, text, note)
  "C01": ("exploration", "DESIGN.md §3 C01, §2.5 World I",
-         "deterministic simulation: seeded histories (insert/remove/update/save+load/search) on the real index with simulator-owned map iteration order, checked against a reference map; seeded search over histories and orders with shrinking",
+         "deterministic simulation: seeded histories (insert/remove/update/save+load/search) on the real index with simulator-owned map iteration order, checked against a reference map; second leg: a simulated cluster of real servers (writes with metadata through any node and API path, restarts that recover from snapshot + log suffix, seeded scheduling) whose dataset searches through the Search service are checked against a sequential map; seeded search over histories, orders and schedules with shrinking",
          "Seeded search over operation histories, index parameters and owned map-iteration orders; every search result is checked against a reference map (live ids only, current metadata, score = space.Distance to the current vector, ascending, unique, <= k, non-empty when the collection is non-empty). A clean batch is evidence, not proof.",
-         "Distances computed with the repository's own space.Distance (same dispatch); zero vectors under cosine excluded (C12 domain); index half of the property only until the cluster world adds the dataset half."),
+         "Distances computed with the repository's own space.Distance (same dispatch); zero vectors under cosine excluded (C12 domain); the cluster leg is fault-free and searches after the replicas converged (what a lagging replica may answer is stated per replica in the property; merging under faults is C09's subject)."),
  "C08": ("exploration", "DESIGN.md §3 C08, §2.5 World I",
          "deterministic simulation: seeded histories produce the saved state; a simulated io.Reader (1-byte reads, random short reads, data-with-EOF, trailing bytes) feeds Load; dump-before-save vs dump-after-load oracle; worker address-space limit turns count-sized allocations into observations",
          "Seeded search over saved states (empty, emptied, after removals/updates/hand-overs, rich metadata), header flag, reader fragmentation and load target (fresh, other parameters, used index). Oracle: Load of own output succeeds, consumes exactly the bytes written, and the dump (ids, bit-identical vectors, metadata, levels, live links, entry point, both counters) equals the dump before Save.",
@@ -28,7 +28,7 @@ CHECKS = {
          "Entries are well-formed (malformed ones are C12's subject); raft is stubbed out (entries are handed to partition.process directly); link-estimate bound 4 KiB per item for the default parameters."),
  "C04": ("fault_enumeration", "DESIGN.md §3 C04, §2.5 World II",
          "deterministic simulation of several partition replicas fed one generated log; the snapshot/restore point is enumerated over every cut of each log (fresh, used and re-snapshotted restorers, different owned map orders); dump-equality oracle plus sequential map model",
-         "For each seeded log, EVERY cut point is exercised: prefix, snapshot, restore into a fresh / used replica, suffix; all replicas must report the same outcome per entry and end with identical contents, equal to the sequential map model.",
+         "For each seeded log, EVERY cut point is exercised: prefix, snapshot, restore into a fresh / used replica, suffix; all replicas must report the same outcome per entry and end with identical contents, equal to the sequential map model. Snapshots kept while their author moves on and takes later ones are restored afterwards as well.",
          "Enumeration is complete per log over cut points (not over logs); raft and the log store are stubbed (World III covers the replicated path)."),
  "C06": ("fault_enumeration", "DESIGN.md §3 C06, §2.5 World IV",
          "deterministic simulation of the raft log store: seeded legal call sequences on the real Badger-backed WAL, differential oracle against etcd raft.MemoryStorage after every call through warm and cold-cache instances; reopen enumerated at every position, DB close/reopen and DeleteGroup as generated faults, several groups per database",
@@ -43,11 +43,11 @@ CHECKS = {
          "Seeded search over schedules at synchronisation-point granularity for 2..5 workers (profiles: one writer + readers, many inserters, many writers). Per-id outcomes must be linearizable as a set (porcupine), Len within linearizable bounds, every concurrently returned search item live in the search window with the right score, quiescent state satisfies the sequential invariants and the C01 oracle; no panic, deadlock or race report.",
          "Interleavings between two synchronisation points are not explored (only the race-detector leg sees plain accesses there); checkptr is disabled in the race build because the SIMD wrappers pass a length as a fake pointer (C15's subject)."),
  "C03": ("fault_enumeration", "DESIGN.md §3 C03, §2.5 World III",
-         "deterministic simulation of a cluster of real servers in one synctest bubble; the crash instant is enumerated over every durable-write boundary (before/after each non-empty Save, local snapshot, log reset) of every node for each generated workload; recovered replica contents checked against the acknowledged history with a nondeterministic per-id register model (porcupine); sampled variants add crashes at quiescence, of all nodes, and message faults",
+         "deterministic simulation of a cluster of real servers in one synctest bubble; the crash instant is enumerated over every durable-write boundary (before/after each non-empty Save, local snapshot, log reset) of every node for each generated workload, including workloads in which a cut-off replica is caught up by a snapshot; recovered replica contents checked against the acknowledged history with a nondeterministic per-id register model (porcupine); sampled variants add crashes at quiescence, of all nodes, and message faults",
          "For each seeded workload the fault-free run counts the durable-write boundaries per node, then the workload is re-executed once per (node, boundary, side) with a crash there, restart of everything and convergence; acknowledged writes must be present, in-flight writes may or may not be, nothing unsubmitted may appear, all replicas agree.",
          "Badger's transactional durability trusted (no torn WriteBatch); unacknowledged writes are indeterminate; enumeration is complete per workload over boundaries, not over workloads."),
  "C05": ("exploration", "DESIGN.md §3 C05, §2.5 World III",
-         "deterministic simulation with fault injection on a cluster of 1..5 real servers (real etcd raft, Badger log store, transport glue): seeded message loss / duplication / late delivery / partitions / crash-restart; safety monitors after every step (state-machine safety, apply order, persist-before-reveal against the durable log store, durable monotonicity across restarts, election safety, no death) and bounded-liveness convergence after faults stop",
+         "deterministic simulation with fault injection on a cluster of 1..5 real servers (real etcd raft, Badger log store, transport glue): seeded message loss / duplication / late delivery / partitions / crash-restart; safety monitors after every step (state-machine safety, apply order, persist-before-reveal and persist-before-apply against the durable log store, durable monotonicity across restarts, election safety, no death), death at a chosen durable-write boundary as a scenario step and bounded-liveness convergence after faults stop",
          "Seeded search over fault schedules; monitors compare every outgoing vote grant / append acknowledgement with what the sender's log store holds durably at that instant, every applied (group,index) digest across replicas and incarnations, durable term/commit/committed entries across restarts; after faults stop all replicas must converge within 120 simulated seconds and accept writes.",
          "Scheduling owned at hook/RPC/yield granularity; Badger durability trusted; durable state read through the product's own log-store reader (validated by C06)."),
  "C09": ("exploration", "DESIGN.md §3 C09, §2.5 World III",
